@@ -31,7 +31,7 @@ import pymbolic
 from pymbolic.mapper import IdentityMapper
 from pymbolic.mapper.collector import TermCollector
 from pymbolic.mapper.constant_folder import CommutativeConstantFoldingMapper
-from pymbolic.primitives import Product, Sum, is_zero
+from pymbolic.primitives import Power, Product, Sum, is_zero
 
 
 class DistributeMapper(IdentityMapper):
@@ -119,6 +119,15 @@ class DistributeMapper(IdentityMapper):
                 ]))
 
         if isinstance(expr.exponent, int):
+            if (isinstance(newbase, Power)
+                    and isinstance(newbase.exponent, int)
+                    and not isinstance(newbase.exponent, bool)
+                    and not isinstance(expr.exponent, bool)):
+                # (b**m)**n == b**(m*n) for integers m and n: without this,
+                # (x**2)**3 and x**6 are not recognized as like terms
+                return self.rec(
+                        newbase.base**(newbase.exponent*expr.exponent))
+
             if isinstance(newbase, Sum) and expr.exponent >= 0:
                 return self.rec(
                         pymbolic.flattened_product(
